@@ -148,6 +148,12 @@ def cppDes (k : Nat) (bytes : Array UInt8) : Except String Fields :=
   if k == 3 then
     let r := init (garbageParser 10) bytes 1
     if !r.2 then .error "Parser init error" else cppDeserializeP r.1
+  else if k == 4 then        -- the parser handed over is in the middle of a traversal
+    let r := init (garbageParser 10) bytes 1
+    if !r.2 then .error "Parser init error" else cppDeserializeP (next (next (goIntoObject r.1).1).1).1
+  else if k == 5 then        -- the parser handed over has its error flag set
+    let r := init (garbageParser 10) bytes 1
+    if !r.2 then .error "Parser init error" else cppDeserializeP (getName r.1).1
   else cppDeserialize bytes
 
 def execCpp (toks : List String) : Option String :=
